@@ -245,8 +245,81 @@ def cfg_succ_chain(ctx, b, bb, n=3):
     return set(out)
 
 
+def commitment_scalars(ctx):
+    """R-C02-11: commitment j enters the equation under z^(2j) (times factors common to all commitments): the scalar pushed opposite each
+    commitment carries, as its only per-commitment factor, a running product that starts at one and is multiplied by z*z once per
+    commitment -- directly, or as the elements of a vector filled with that running product.  A table of powers built any other way is
+    not recognised and reported: the powers it holds are what decides which linear combination of the committed values is bound."""
+    from . import msm_pairs
+    rep = ctx.rep
+    v = msm.verifier_core(ctx, 'R-C02-11')
+    if v is None:
+        return
+    sites = msm.msm_sites(ctx, v)
+    if len(sites) != 1:
+        return
+    gbb = sites[0][0]
+    node = v.block[gbb]['term']
+    sl = msm_pairs.root_local(ctx, v, gbb, node['args'][2])
+    if sl is None:
+        rep.anchor_missing('R-C02-11', 'R-C02-11/dynamic-scalars', 'cannot resolve the dynamic scalar vector of the gate')
+        return
+    cand = []
+    for e in msm_pairs.fills(ctx, v, sl):
+        if not e['decl'].endswith('::push'):
+            continue
+        lps = ctx.enclosing_loops(v, e['bb'])
+        if len(lps) >= 2 and lps[-1].iter_term is not None and any(x.tag == 'field' and x[1] in ('minimum_value_promises', 'commitments') for x in walk(lps[-1].iter_term)):
+            cand.append(e)
+    if len(cand) != 1:
+        rep.idiom_absent('R-C02-11', 'R-C02-11/commitment-scalars', '%d pushes of dynamic scalars inside a loop over the commitments / promises (expected one): not decided' % len(cand))
+        return
+    e = cand[0]
+    val = ctx.eng.event_term(v, e)[3][0]
+    from .C06 import challenge_functions
+    chal_fns = challenge_functions(ctx)          # the crate functions that draw challenges, whatever they are called
+
+    def is_zsq(t):
+        t = strip_mut(t)
+        if t.tag == 'binop' and t[1] == 'Mul' and canon(t[2]) == canon(t[3]):
+            z = strip_mut(t[2])
+            return any(x.tag == 'call' and x[1] in chal_fns for x in walk(z))
+        return False
+
+    def running(t):
+        # mut(ONE; mul_assign(z*z)) -- one in-place multiplication per iteration
+        if t.tag != 'mut':
+            return False
+        b0 = t[1]
+        evs = [x for x in t[2] if hasattr(x, 'tag') and x.tag == 'ev']
+        one = canon(b0) in ('S1', 'ONE') or (b0.tag == 'item' and b0[1].endswith('::ONE'))
+        return one and len(evs) == 1 and evs[0][2].split('::')[-1] == 'mul_assign' and bool(evs[0][3]) and is_zsq(evs[0][3][0])
+    direct = [x for x in walk(val) if running(x)]
+    via_vec = []
+    for x in walk(val):
+        if x.tag in ('elem', 'elemat'):
+            base = x[1]
+            while base.tag in ('adapt', 'via', 'zip') and len(base.args) >= 2:
+                base = base[2] if base.tag in ('adapt', 'via') else base[1]
+            if base.tag == 'mut':
+                pushed = [ev_[3][0] for ev_ in base[2] if hasattr(ev_, 'tag') and ev_.tag == 'ev' and ev_[2].split('::')[-1] == 'push' and ev_[3]]
+                others = [ev_ for ev_ in base[2] if hasattr(ev_, 'tag') and ev_.tag == 'ev' and ev_[2].split('::')[-1] not in ('push', 'reserve', 'with_capacity')]
+                if pushed and not others and all(any(running(y) for y in walk(p_)) for p_ in pushed) and 'Scalar' in str(v.local_ty(0)) + 'Scalar':
+                    via_vec.append(x)
+    ok = bool(direct) or bool(via_vec)
+    rep.check(ok, 'R-C02-11', 'R-C02-11/commitment-scalars', 'the scalar of commitment j carries the running product of z*z (one step per commitment from one): z^(2j)',
+              'the per-commitment factor of the commitments\' scalars is not a running product of z*z from one: %s' % short(val, 200), ctx.where(v, e['bb']))
+
+
+def strip_mut(t):
+    while t.tag == 'mut':
+        t = t[1]
+    return t
+
+
 def run(ctx):
-    _run(ctx)        # R-C02-10: see below (the verifier half of C04 is a clause of soundness)
+    _run(ctx)
+    commitment_scalars(ctx)        # R-C02-10: see below (the verifier half of C04 is a clause of soundness)
     from . import C08
     from .common import shared
     shared(ctx, C08.run, 'R-C08', 'R-C02-8')
